@@ -110,6 +110,22 @@ fn by_wire(kind: usize, w: u32) -> Option<(bool, bool, u32, u32)> {
         if wr.data.len() != 10 || wr.data[..6] != b[..6] {
             return None;
         }
+        // the same AVP inside a control message decoded under the strictest and the weakest options: same value
+        let mut m = vec![0x13, 0x20, 0, 30, 0, 1, 0, 2, 0, 3, 0, 4, 0x01, 0x08, 0, 0, 0, 0, 0, 1];
+        m.extend_from_slice(&b);
+        for (r, v, u) in [(true, true, true), (false, false, false), (true, false, false)] {
+            let o = rl2tp::ValidationOptions {
+                reserved: if r { rl2tp::ValidateReserved::Yes } else { rl2tp::ValidateReserved::No },
+                version: if v { rl2tp::ValidateVersion::Yes } else { rl2tp::ValidateVersion::No },
+                unused: if u { rl2tp::ValidateUnused::Yes } else { rl2tp::ValidateUnused::No },
+            };
+            let mut mr = SliceReader::from(&m[..]);
+            let d: Result<rl2tp::Message<&[u8]>, _> = rl2tp::Message::try_read_validate(&mut mr, o);
+            match d {
+                Ok(rl2tp::Message::Control(c)) if c.avps.len() == 2 && c.avps[1] == a => {}
+                _ => return None,
+            }
+        }
         Some((f, s, u32::from_be_bytes(wr.data[6..10].try_into().unwrap()), dw))
     });
     match r {
@@ -171,7 +187,7 @@ pub fn check_word(kind: usize, w: u32, family: &'static str, cx: &mut Cx) -> Res
         None => return fail("the constructor does not set exactly one distinct bit per parameter (new(false,false) != 0, or new(true,true) != the union)", render()),
     };
     match r {
-        None => return fail("a 4-octet bitmask payload did not decode, or decoded differently through the kind's own try_read, or did not re-encode as one AVP", render()),
+        None => return fail("a 4-octet bitmask payload did not decode, or decoded differently through the kind's own try_read or inside a control message (strict / weak options), or did not re-encode as one AVP", render()),
         Some((f, s, back, dbg)) => {
             if back != w {
                 return fail(format!("decode then encode changed the word: {:#010x} -> {:#010x}", w, back), render());
